@@ -1,5 +1,6 @@
 import QuiverModel.Lemmas.Packaging.Bridge
 import QuiverModel.Theorems.C10
+import QuiverModel.Lemmas.Packaging.MergeBridge
 /-
 C10 × C08 — what `tree_shake` does to the run-time compatibility verdicts, for every program.
 
@@ -28,7 +29,7 @@ validator; see notes/C10.md.
 -/
 namespace C10
 open QM QM.Packaging
-open QM.Types (CInput CTag TypeIndex tagType tagAccepts isCompatible typesOverlap CTag.mapIds)
+open QM.Types (CInput CTag TypeIndex tagType tagAccepts isCompatible typesOverlap CTag.mapIds Embeds)
 
 /-- a program as the input of C08's compatibility computation -/
 def toCInput (ι : String → Nat) (P : Prog) : CInput :=
@@ -765,6 +766,131 @@ def shakeHypotheses (fuel : Nat) (P P' : Prog) (e : Nat) : String :=
       | .builtin _ => "builtin" | .proc _ => "proc" | .res _ => "res"
     let lostS := if lost.isEmpty then "-" else ",".intercalate (lost.map kind).eraseDups
     s!"hyp all={all} lost-entries={lostS} tables-computed-A={tcA} tables-computed-B={tcB} types-nodup={nodupT} resources-nodup={nodupR} fn-types-callable={callable} resource-names={resnames} presence-kept={presence}"
+
+
+/-! ### `merge_bytecode` through C08 / C09's model of the type relation -/
+
+/-- **The merged tables contain a renamed copy of the incoming program's type and tuple tables** (C09's `Embeds`),
+    by `type_remap` / `tuple_remap` made total (`fwdMap`) — for every environment and incoming program. -/
+theorem merge_embeds (ι : String → Nat) {env src : Prog} {e : Nat} {out : MergeOut}
+    (h : mergeBytecode env src e = some out)
+    (hk : (out.ren.type.map (·.1)).Nodup ∧ (out.ren.tuple.map (·.1)).Nodup)
+    {rT rU : Nat → Nat} (hs : Stratified src rT rU)
+    (hnT : src.types.toList.Nodup) (hnU : src.tuples.toList.Nodup) :
+    Embeds (fwdMap out.ren.type out.prog.types.size) (fwdMap out.ren.tuple out.prog.tuples.size)
+      (toTable ι src) (toTable ι out.prog) := by
+  obtain ⟨TC, UC, ttot, utot⟩ := merge_types_tuples h hk
+  obtain ⟨iy, it⟩ := type_tuple_maps_inj hs hnT hnU TC UC
+  exact embeds_of_clauses ι iy it TC UC ttot utot
+
+/-- **Merging preserves assignability** between any two types of the incoming program — every environment, program,
+    fuel, pair of type ids. -/
+theorem merge_keeps_assignability (ι : String → Nat) {env src : Prog} {e : Nat} {out : MergeOut}
+    (h : mergeBytecode env src e = some out)
+    (hk : (out.ren.type.map (·.1)).Nodup ∧ (out.ren.tuple.map (·.1)).Nodup)
+    {rT rU : Nat → Nat} (hs : Stratified src rT rU)
+    (hnT : src.types.toList.Nodup) (hnU : src.tuples.toList.Nodup) (fuel a b : Nat) :
+    isCompatible (toTable ι out.prog) fuel (fwdMap out.ren.type out.prog.types.size a)
+        (fwdMap out.ren.type out.prog.types.size b) =
+      isCompatible (toTable ι src) fuel a b :=
+  C08.compat_rename (merge_embeds ι h hk hs hnT hnU) fuel a b
+
+theorem merge_keeps_overlap (ι : String → Nat) {env src : Prog} {e : Nat} {out : MergeOut}
+    (h : mergeBytecode env src e = some out)
+    (hk : (out.ren.type.map (·.1)).Nodup ∧ (out.ren.tuple.map (·.1)).Nodup)
+    {rT rU : Nat → Nat} (hs : Stratified src rT rU)
+    (hnT : src.types.toList.Nodup) (hnU : src.tuples.toList.Nodup) (fuel a b : Nat) :
+    typesOverlap (toTable ι out.prog) fuel (fwdMap out.ren.type out.prog.types.size a)
+        (fwdMap out.ren.type out.prog.types.size b) =
+      typesOverlap (toTable ι src) fuel a b :=
+  C08.overlap_rename (merge_embeds ι h hk hs hnT hnU) fuel a b
+
+
+theorem merge_builtin_total {env src : Prog} {e : Nat} {out : MergeOut}
+    (h : mergeBytecodeWith false env src e = some out) :
+    ∀ b, b < src.builtins.size → ∃ b', out.ren.builtin.get b = some b' := by
+  unfold mergeBytecodeWith at h
+  simp only at h
+  split at h
+  · cases h
+  · rename_i st1 h1
+    split at h
+    · cases h
+    · rename_i st2 h2
+      split at h
+      · cases h
+      · simp only [Option.some.injEq] at h
+        subst h
+        obtain ⟨_, _, hb3⟩ := mergeBuiltins_spec src st2.tyMap src.builtins.toList 0 st2.prog []
+          (fun j B hj => by simpa using hj) (fun _ h => by cases h) (fun _ _ hg => by simp [AMap.get] at hg)
+        intro b hb
+        exact hb3 b (Nat.zero_le _) (by simpa using hb)
+
+/-- **Merging preserves every run-time type-test verdict of the incoming program**: a pattern of the incoming program
+    accepts a tag (that has an index entry there) exactly when the merged pattern accepts the merged tag in the
+    environment's program — with b-c09's `C08.rename_invariant_of_embeds`. Hypotheses: those of `merge_isRenaming`
+    that concern types (`hk`, `Stratified`, duplicate-free source tables), `SrcWf`, the merged type table duplicate-free
+    (`register_type`), `hbt` (an already loaded builtin of the same name has the renamed types) and the source's
+    resource names occur among the merged ones. -/
+theorem merge_keeps_every_tag_verdict (ι : String → Nat) {env src : Prog} {e : Nat} {out : MergeOut}
+    (h : mergeBytecode env src e = some out) (hw : SrcWf src)
+    (hk : (out.ren.type.map (·.1)).Nodup ∧ (out.ren.tuple.map (·.1)).Nodup)
+    {rT rU : Nat → Nat} (hs : Stratified src rT rU)
+    (hnT : src.types.toList.Nodup) (hnU : src.tuples.toList.Nodup)
+    (hnd : (toTable ι out.prog).types.Nodup)
+    (hbt : ∀ b b' B B', out.ren.builtin.get b = some b' → src.builtins[b]? = some B → out.prog.builtins[b']? = some B' →
+      out.ren.type.get B.paramType = some B'.paramType ∧ out.ren.type.get B.resultType = some B'.resultType)
+    (hresP : ∀ n ∈ src.resources.toList, n ∈ out.prog.resources.toList)
+    (fuel p id : Nat) (c : CTag)
+    (hc : tagType (toCInput ι src) (TypeIndex.build (toTable ι src)) c = some id) :
+    tagAccepts (toCInput ι out.prog) (TypeIndex.build (toTable ι out.prog)) fuel
+        (fwdMap out.ren.type out.prog.types.size p)
+        (c.mapIds (fwdMap out.ren.tuple out.prog.tuples.size) (fwdMap out.ren.fn out.prog.fns.size)
+          (fwdMap out.ren.builtin out.prog.builtins.size)
+          (fun rid => match src.resources[rid]? with
+            | some n => nameIdx n out.prog.resources.toList
+            | none => 0)) =
+      tagAccepts (toCInput ι src) (TypeIndex.build (toTable ι src)) fuel p c := by
+  have E := merge_embeds ι h hk hs hnT hnU
+  obtain ⟨_, FC, _, BC, ftot⟩ := merge_image_clauses h hw hk
+  have btot := merge_builtin_total h
+  refine C08.rename_invariant_of_embeds (toCInput ι src) (toCInput ι out.prog) E hnd _ _ _ ?_ ?_ ?_ fuel p id c hc
+  · intro fid f hf
+    simp only [toCInput, List.getElem?_map, Option.map_eq_some_iff] at hf
+    obtain ⟨F, hF, rfl⟩ := hf
+    have hF' : src.fns[fid]? = some F := by simpa using hF
+    have hlt : fid < src.fns.size := by
+      rcases Nat.lt_or_ge fid src.fns.size with h1 | h1
+      · exact h1
+      · rw [Array.getElem?_eq_none h1] at hF'; cases hF'
+    obtain ⟨f', hf'⟩ := ftot fid hlt
+    obtain ⟨F0, F1, a1, a2, _, _, a5⟩ := FC fid f' hf'
+    rw [hF'] at a1; cases a1
+    have a2' : out.prog.fns.toList[f']? = some F1 := by simpa using a2
+    refine ⟨⟨F1.typeId, isTypeOps F1.instrs⟩, ?_, ?_⟩
+    · simp only [toCInput, List.getElem?_map, fwdMap_of_get hf', a2', Option.map_some]
+    · simp only [fwdMap_of_get a5]
+  · intro bid b hb
+    simp only [toCInput, List.getElem?_map, Option.map_eq_some_iff] at hb
+    obtain ⟨B, hB, rfl⟩ := hb
+    have hB' : src.builtins[bid]? = some B := by simpa using hB
+    have hlt : bid < src.builtins.size := by
+      rcases Nat.lt_or_ge bid src.builtins.size with h1 | h1
+      · exact h1
+      · rw [Array.getElem?_eq_none h1] at hB'; cases hB'
+    obtain ⟨b', hb'⟩ := btot bid hlt
+    obtain ⟨B0, B1, a1, a2, _⟩ := BC bid b' hb'
+    rw [hB'] at a1; cases a1
+    obtain ⟨hp, hr⟩ := hbt bid b' B B1 hb' hB' a2
+    have a2' : out.prog.builtins.toList[b']? = some B1 := by simpa using a2
+    simp only [toCInput, List.getElem?_map, fwdMap_of_get hb', a2', Option.map_some, fwdMap_of_get hp,
+      fwdMap_of_get hr]
+  · intro rid n hn
+    simp only [toCInput, List.getElem?_map, Option.map_eq_some_iff] at hn
+    obtain ⟨s, hs', rfl⟩ := hn
+    have hs'' : src.resources[rid]? = some s := by simpa using hs'
+    have hmem : s ∈ out.prog.resources.toList := hresP s (List.mem_of_getElem? hs')
+    simp only [toCInput, List.getElem?_map, hs'', nameIdx_get hmem, Option.map_some]
 
 
 end C10
